@@ -296,6 +296,45 @@ func mergeDirection(c *an.Ctx, rule string) {
 			if _, isBuiltin := x.Call.Value.(*ssa.Builtin); isBuiltin {
 				return ""
 			}
+			// m.Range(func(k, v) { <built container>.Store/Set(k, v) }): the entries of m's owner are written
+			// into the container being built, one by one, by the callback
+			if an.ShortCallee(&x.Call) == "(*sync.Map).Range" && len(x.Call.Args) == 2 {
+				for _, src := range an.Sources(x.Call.Args[1]) {
+					mc, ok := src.(*ssa.MakeClosure)
+					if !ok {
+						continue
+					}
+					cb := mc.Fn.(*ssa.Function)
+					writes := false
+					an.EachInstr(cb, func(in2 ssa.Instruction) {
+						c2, ok := in2.(*ssa.Call)
+						if !ok || len(c2.Call.Args) == 0 {
+							return
+						}
+						var r2 ssa.Value
+						a2 := c2.Call.Args
+						if c2.Call.IsInvoke() {
+							r2 = c2.Call.Value
+						} else {
+							r2, a2 = a2[0], a2[1:]
+						}
+						usesEntry := false
+						for _, a := range a2 {
+							for _, as := range an.Sources(a) {
+								if prm, ok := as.(*ssa.Parameter); ok && prm.Parent() == cb {
+									usesEntry = true
+								}
+							}
+						}
+						if usesEntry && isFreshStorage(r2) {
+							writes = true
+						}
+					})
+					if writes {
+						return label(x.Call.Args[0])
+					}
+				}
+			}
 			var recv ssa.Value
 			args := x.Call.Args
 			if x.Call.IsInvoke() {
@@ -324,6 +363,20 @@ func mergeDirection(c *an.Ctx, rule string) {
 			}
 		}
 		return ""
+	}
+	// what Merge returns is a container it built: handing back the receiver or the argument itself (a "nothing
+	// to copy" fast path) makes every later layering step on the result — With("TASK_NAME", …), Set — a write
+	// into a container that other tasks read
+	for _, ret := range an.Returns(fn) {
+		fresh := true
+		for _, src := range an.ResolveAll(an.RetVal(ret, 0)) {
+			if f2, _ := an.FreshBase(src); !f2 {
+				fresh = false
+			}
+		}
+		if !fresh {
+			c.Bad(rule, an.Short(fn)+":result", ret.Pos(), "Merge can return %s instead of a container it allocated: the layers built on top of the result are then written into an operand that other tasks share", an.Prov(an.RetVal(ret, 0)))
+		}
 	}
 	outs := ex.Run(fn, fn.Blocks[0], nil, nil)
 	if os.Getenv("TV_DEBUG") != "" {
@@ -470,6 +523,19 @@ func executeEnv(c *an.Ctx, rule1, rule2 string) {
 				return "process-env"
 			case strings.Contains(s, "Job.Env"):
 				return "job-env"
+			}
+			// a conversion of something that arrived as a parameter (ConvertToMapOfStrings(jobEnv))
+			if call, ok := src.(*ssa.Call); ok && depth > 0 {
+				for _, a := range call.Call.Args {
+					if _, isPrm := an.Resolve(a).(*ssa.Parameter); isPrm {
+						if l := labelOf(a, depth-1); l != "" {
+							if label != "" && label != l {
+								return "?mixed"
+							}
+							label = l
+						}
+					}
+				}
 			}
 			if prm, ok := src.(*ssa.Parameter); ok && depth > 0 {
 				idx := paramIndexOf(prm.Parent(), prm)
